@@ -24,11 +24,25 @@ static int op_pad(int argc, char **argv, FILE *o) {
     hx_free(&a.b);
     return 0;
 }
+#include <sys/mman.h>
+/* the buffer is placed so that buf[-1] lies in a PROT_NONE page: a read before the buffer faults */
+static unsigned char *guarded_copy(const unsigned char *p, size_t n) {
+    static unsigned char *region; static const size_t cap = 1u << 20;
+    if (region == NULL) {
+        region = (unsigned char *) mmap(NULL, cap + 4096, PROT_READ | PROT_WRITE, MAP_PRIVATE | MAP_ANONYMOUS, -1, 0);
+        if (region == MAP_FAILED) return NULL;
+        mprotect(region, 4096, PROT_NONE);
+    }
+    if (n > cap) return NULL;
+    memcpy(region + 4096, p, n);
+    return region + 4096;
+}
 static int op_unpad(int argc, char **argv, FILE *o) {
-    buf_t b; uint64_t bs; size_t unp = (size_t) 0xdeadbeefULL; int rc;
+    buf_t b; uint64_t bs; size_t unp = (size_t) 0xdeadbeefULL; int rc; unsigned char *g;
     if (argc != 2 || hx_hex(argv[0], &b)) return -1;
     if (hx_u64(argv[1], &bs)) { hx_free(&b); return -1; }
-    rc = sodium_unpad(&unp, b.p, b.n, (size_t) bs);
+    g = guarded_copy(b.p, b.n);
+    rc = sodium_unpad(&unp, g != NULL ? g : b.p, b.n, (size_t) bs);
     if (unp == (size_t) 0xdeadbeefULL) fprintf(o, "%d unset", rc);
     else fprintf(o, "%d %llu", rc, (unsigned long long) unp);
     hx_free(&b);
